@@ -16,12 +16,54 @@ func main() {
 		os.Exit(2)
 	}
 	switch os.Args[1] {
+	case "check":
+		if len(os.Args) < 3 {
+			fmt.Fprintln(os.Stderr, "usage: govc check <id> [quick|thorough]")
+			os.Exit(2)
+		}
+		o := checkOpts{id: os.Args[2], tier: "quick", verifDir: "/verif", repoDir: "/repo"}
+		if len(os.Args) > 3 {
+			o.tier = os.Args[3]
+		}
+		if t := os.Getenv("VERIF_TIER"); t != "" && len(os.Args) <= 3 {
+			o.tier = t
+		}
+		if s := os.Getenv("VERIF_SEED"); s != "" {
+			fmt.Sscanf(s, "%d", &o.seed)
+		}
+		if d := os.Getenv("GOVC_REPO"); d != "" {
+			o.repoDir = d
+		}
+		code := runCheck(o)
+		cleanupScratch()
+		os.Exit(code)
+	case "lemmas":
+		p, err := loadProg("/repo", "/verif/spec")
+		if err != nil {
+			fmt.Fprintln(os.Stderr, "ENGINE-ERROR:", err)
+			os.Exit(2)
+		}
+		p.prepareLemmaAxioms()
+		for _, lm := range p.spec.Lemmas {
+			if len(os.Args) > 2 && !strings.Contains(lm.Name, os.Args[2]) {
+				continue
+			}
+			t0 := time.Now()
+			r := p.checkLemma(lm)
+			if r.Err != "" {
+				fmt.Printf("ERR  %s: %s\n", lm.Name, r.Err)
+				continue
+			}
+			solveAll([]*Obligation{r.Ob}, 60, 0, 1)
+			fmt.Printf("%-5s %-40s A=%d B=%d prod=%d classes=%d %s %.2fs (total %.2fs) wit=%q\n", r.Ob.Result.Verdict, lm.Name, r.StatesA, r.StatesB, r.Product, r.Classes, r.Ob.Result.Solver, r.Ob.Result.Seconds, time.Since(t0).Seconds(), r.Witness)
+		}
 	case "funcs":
 		p, err := loadProg("/repo", "/verif/spec")
 		if err != nil {
 			fmt.Fprintln(os.Stderr, "ENGINE-ERROR:", err)
 			os.Exit(2)
 		}
+		p.prepareLemmaAxioms()
 		keys := os.Args[2:]
 		if len(keys) == 0 {
 			for k, c := range p.spec.Contracts {
@@ -76,7 +118,17 @@ func solveAll(obs []*Obligation, timeoutS, seed, par int) {
 			if script == "" {
 				script = ob.fx.scriptFor(ob)
 			}
-			r := solve(script, timeoutS, seed, false)
+			to := timeoutS
+			if ob.Canary {
+				to = 3
+			}
+			r := solve(script, to, seed, false)
+			if ob.Canary && r.Verdict != VUnsat {
+				r.Verdict = VSat // not refuted: the path is not provably dead
+				if r.Solver == "" {
+					r.Solver = "canary(not-unsat)"
+				}
+			}
 			ob.Result = &r
 		}(ob)
 	}
